@@ -32,8 +32,8 @@ PAIRS = {"plain": ("HNM", "HLM"), "eq": ("HEqNM", "HEqLM")}
 def outcome(exc):
     if exc is None:
         return ["ok"]
-    if isinstance(exc, mut.Veto):
-        return ["Veto", exc.kind, exc.label, exc.count]
+    if isinstance(exc, (mut.Veto, mut.VetoBase)):
+        return [type(exc).__name__, exc.kind, exc.label, exc.count]
     return [type(exc).__name__]
 
 
